@@ -861,7 +861,7 @@ impl<'w, 'r, 'gc> Cb<'w, 'r, 'gc> {
             if kind == Kind::SetHolder {
                 strong[0] = Some(id + 1);
             }
-            w.sh.objs.insert(id, Obj { kind, arena: a, strong, weak: vec![None; kind.n_weak()], toks, addr, block, destructed: false, released: false, born_event: ev, lay: None, conv: vec![] });
+            w.sh.objs.insert(id, Obj { kind, arena: a, strong, weak: vec![None; kind.n_weak()], toks, addr, block, destructed: false, released: false, born_event: ev, lay: None, conv: vec![], drop_faulted: false });
             w.addr2id.insert(addr, id);
             w.sh.next_id = w.sh.next_id.max(id + 1);
             w.stats.allocs += 1;
@@ -1357,7 +1357,7 @@ impl<'w, 'r, 'gc> Cb<'w, 'r, 'gc> {
                 self.viol("H.seam", format!("no allocator block found for the uncached ZstCache allocation {id}"));
             }
             let ev = self.w.ev_index as u32;
-            self.w.sh.objs.insert(id, Obj { kind: Kind::Lay { t: 254, len: 0 }, arena: a, strong: vec![], weak: vec![], toks: vec![], addr, block, destructed: false, released: false, born_event: ev, lay: None, conv: vec![] });
+            self.w.sh.objs.insert(id, Obj { kind: Kind::Lay { t: 254, len: 0 }, arena: a, strong: vec![], weak: vec![], toks: vec![], addr, block, destructed: false, released: false, born_event: ev, lay: None, conv: vec![], drop_faulted: false });
             self.w.addr2id.insert(addr, id);
             self.w.sh.next_id = self.w.sh.next_id.max(id + 1);
             self.w.stats.allocs += 1;
@@ -1648,7 +1648,7 @@ impl<'w, 'r, 'gc> Cb<'w, 'r, 'gc> {
                     self.w.tok2obj.insert(*t, first);
                 }
                 let ev = self.w.ev_index as u32;
-                self.w.sh.objs.insert(first, Obj { kind: okind, arena: a, strong: vec![], weak: vec![], toks, addr, block, destructed: false, released: false, born_event: ev, lay: None, conv: vec![] });
+                self.w.sh.objs.insert(first, Obj { kind: okind, arena: a, strong: vec![], weak: vec![], toks, addr, block, destructed: false, released: false, born_event: ev, lay: None, conv: vec![], drop_faulted: false });
                 self.w.addr2id.insert(addr, first);
                 self.w.stats.allocs += 1;
                 let rt = &mut self.w.rt[a as usize];
